@@ -221,7 +221,7 @@ pub fn run(ctx: &Ctx) -> i32 {
     let ts = terms(depth - 1);
     let d1 = terms(1);
     let npairs = d1.len() * d1.len();
-    let total = (ts.len() + npairs) as u64;
+    let total = (ts.len() + 2 * npairs) as u64;
     let (tsr, d1r) = (&ts, &d1);
     let acc = par::sweep(
         total,
@@ -241,6 +241,15 @@ pub fn run(ctx: &Ctx) -> i32 {
                     }
                 }
                 acc.states += all.len() as u64;
+            } else if i >= tsr.len() + npairs {
+                // two import DECLARATIONS one after the other on the same interpreter: the second
+                // binds (and re-binds) exactly its own names, whatever the first one bound
+                let k = i - tsr.len() - npairs;
+                let (t1, t2) = (&d1r[k / d1r.len()], &d1r[k % d1r.len()]);
+                let mut u = apply(t1);
+                u.extend(apply(t2));
+                let (l1, l2) = if k % 2 == 0 { ("(lib4 src)", "(lib4 src)") } else { ("(lib4 native)", "(lib4 file)") };
+                judge_decl(w1, w2, acc, (i * 100_000) as u64, format!("(import {}) (import {})", render(t1, l1), render(t2, l2)), Some(u), "two-declarations", false);
             } else {
                 let k = i - tsr.len();
                 let (t1, t2) = (&d1r[k / d1r.len()], &d1r[k % d1r.len()]);
@@ -262,7 +271,7 @@ pub fn run(ctx: &Ctx) -> i32 {
             tier: ctx.tier_name(),
             seed: ctx.seed,
             exhaustive: true,
-            rule: "every import-set term of nesting depth <= D over a library exporting a b c d: only / except with every subset of the current names, prefixes p-, q- and the empty prefix, rename with every injective partial map of <= 2 current names into the current names + {e f} without duplicate results (swaps, chains, both orders of the pairs); each term with the library supplied natively, as registered source and as a file; every ordered pair of depth-<=1 terms in one declaration; each declaration on two interpreter instances; states = terms, distinct = distinct binding sets".into(),
+            rule: "every import-set term of nesting depth <= D over a library exporting a b c d: only / except with every subset of the current names, prefixes p-, q- and the empty prefix, rename with every injective partial map of <= 2 current names into the current names + {e f} without duplicate results (swaps, chains, both orders of the pairs); each term with the library supplied natively, as registered source and as a file; every ordered pair of depth-<=1 terms in one declaration and as two declarations in sequence on one interpreter (the later one re-binds); each declaration on two interpreter instances; states = terms, distinct = distinct binding sets".into(),
             bounds: json!({"depth": depth, "terms": nterms, "supply_modes": MODES.len(), "union_pairs": npairs}),
             assumptions: vec!["hash seeds cannot be enumerated: two instances per declaration are a sample of the seed space, the term space is exhaustive".into()],
             wall_s: ctx.elapsed(),
